@@ -36,11 +36,14 @@ class MetaSignals(type):
     """
 
     def __init__(cls, name: str, bases: tuple[type, ...], d: dict[str, typing.Any]) -> None:
-        signals = d.get("signals", [])
+        # a list of its own for every class: the list object written in the class body may be shared with
+        # other classes (a module-level constant, ``signals = Other.signals``) and must not grow with
+        # this class's inherited names
+        signals = list(d.get("signals", []))
         for superclass in cls.__mro__[1:]:
             signals.extend(getattr(superclass, "signals", []))
         signals = list(dict.fromkeys(signals).keys())
-        d["signals"] = signals
+        cls.signals = signals
         register_signal(cls, signals)
         super().__init__(name, bases, d)
 
